@@ -55,6 +55,10 @@ TOp == /\ l <= Len(Rec) /\ phase = "run" /\ Ev.k = "op"
        /\ end' = "run"
        /\ IF Ev.res = -1 THEN regs'[Ev.t] = regs[Ev.t]
           ELSE regs'[Ev.t] = Append(regs[Ev.t], Ev.res)
+       \* when the recording says which way loom decided the spurious branch of this Notify::wait,
+       \* the spec must take the same way (spurious return only if loom really took it)
+       /\ (("spur" \in DOMAIN Ev /\ Ev.spur # -1 /\ Code(Ev.t)[pc[Ev.t]].op = "nwait") =>
+             ((ob'.ntf[Code(Ev.t)[pc[Ev.t]].o].spurred # ob.ntf[Code(Ev.t)[pc[Ev.t]].o].spurred) <=> (Ev.spur = 1)))
        /\ pre' = IF Preempted(lastT, Ev.t) THEN pre + 1 ELSE pre
        /\ (pb # -1 => pre' <= pb)                \* C15: never more than the bound (for some explanation of the trace)
        /\ lastT' = Ev.t
@@ -73,7 +77,7 @@ TEnd == /\ l <= Len(Rec) /\ phase = "run" /\ Ev.k = "end"
              [] Ev.e = "deadlock" -> Deadlocked /\ UNCHANGED vars
              [] Ev.e \in {"leak:arc", "leak:alloc", "leak:msg"}
                                   -> end = "run" /\ AllDone /\ Ev.e \in LeakKinds /\ UNCHANGED vars
-             [] Ev.e \in {"race", "panic"}
+             [] Ev.e \in {"race", "panic", "usage"}
                                   -> \E t \in Threads : Step(t) /\ end' = Ev.e
              [] OTHER             -> UNCHANGED vars       \* "cut": the iteration was not finished
         /\ l' = l + 1 /\ phase' = "ended" /\ UNCHANGED <<lastT, pre, pb>>
